@@ -34,7 +34,10 @@ def parseHeap (str : String) : Heap :=
       pure (id, { self := ⟨a, id.idx⟩, refs := parseRefs refs })
     | _ => none)
 
-/-- entries of the write set / the cache: `id:addr:refs` or `id:nil` -/
+/-- entries of the write set / the cache: `id:addr:refs` or `id:nil`; `id:shadowed` is a non-nil
+    cache entry whose identifier is also a key of the write set - its content is not dumped (the
+    object may be dead) and is never looked at: slab iteration skips the key in both loops, every
+    read takes the pending entry.  It is given the empty content. -/
 def parseOpt (str : String) : AList SlabID (Option HSlab) :=
   if str.isEmpty then [] else
   (str.splitOn ";").filterMap (fun ent =>
@@ -42,6 +45,9 @@ def parseOpt (str : String) : AList SlabID (Option HSlab) :=
     | [ids, "nil"] => do
       let id ← parseID ids
       pure (id, none)
+    | [ids, "shadowed"] => do
+      let id ← parseID ids
+      pure (id, some { self := id, refs := [] })
     | [ids, addr, refs] => do
       let id ← parseID ids
       let a ← addr.toNat?
@@ -68,6 +74,66 @@ def checkObs : Except HErr (List SlabID) → String
   | .ok roots => "OBS ok:" ++ idList roots
   | .error e => "OBS err:" ++ herr e
 
+/-! ### Totality of the replay on ANY trace
+
+`Health.childRefs` and `Health.iterChildren` expand their levels as lists (with multiplicity, as the
+Go loops do) and stop at `diverges` only when their level fuel (number of slabs + 1) runs out.  On
+a dumped heap in which a slab refers several times into a reference cycle (a trace written by a
+changed tree: e.g. every reference decoded as `x.x`, a slab `[ref self, ref self, ref self]`) the
+levels grow geometrically and the evaluation does not finish within the lifetime of the machine.
+Before evaluating the model the replayer therefore COUNTS the references the traversal would visit,
+on multiplicities (one step per distinct identifier of a level, whatever the number of paths that
+lead to it: `levels x slabs` steps at most), and refuses to evaluate beyond `workCap`: the answer
+line is then a text no implementation prints, so the line is reported as a disagreement.  The
+model's answer is never replaced by anything computed here. -/
+
+/-- add `n` occurrences of `id` to a multiset kept as an association list -/
+def addMult (m : AList SlabID Nat) (id : SlabID) (n : Nat) : AList SlabID Nat :=
+  match AList.find? m id with
+  | some k => AList.insert m id (k + n)
+  | none => (id, n) :: m
+
+/-- `acc` + the number of references the level-by-level traversal visits from `level` on (at most
+    `fuel` levels), where a visited reference `r` contributes the references `succ r` to the next
+    level; gives up (returning the count so far) once the count exceeds `cap`. -/
+def walkCost (succ : SlabID → List SlabID) (cap : Nat) : Nat → AList SlabID Nat → Nat → Nat
+  | 0, _, acc => acc
+  | fuel + 1, level, acc =>
+    if level.isEmpty then acc
+    else
+      let acc := level.foldl (fun a p => a + p.2) acc
+      if acc > cap then acc
+      else
+        let next := level.foldl (fun m p => (succ p.1).foldl (fun m r => addMult m r p.2) m) ([] : AList SlabID Nat)
+        walkCost succ cap fuel next acc
+
+def toLevel (refs : List SlabID) : AList SlabID Nat := refs.foldl (fun m r => addMult m r 1) []
+
+/-- references visited by `Health.allChildReferences h root` -/
+def refsCost (cap : Nat) (h : Heap) (root : SlabID) : Nat :=
+  match AList.find? h root with
+  | none => 0
+  | some s =>
+    walkCost (fun r => match AList.find? h r with | some t => t.refs | none => []) cap (h.length + 1) (toLevel s.refs) 0
+
+/-- references visited by `Health.slabIterator idCodec _ sto` (every loaded slab starts one
+    traversal; a key of the write set or of the cache is visited but not expanded) -/
+def iterCost (cap : Nat) (sto : St HSlab HSlab) : Nat :=
+  let succ := fun (r : SlabID) =>
+    if AList.contains sto.deltas r || AList.contains sto.cache r then []
+    else match AList.find? sto.base r with | some t => t.refs | none => []
+  let start := fun (acc : Nat) (v : Option HSlab) =>
+    match v with
+    | some t => if acc > cap then acc else walkCost succ cap (sto.base.length + 1) (toLevel t.refs) acc
+    | none => acc
+  let a := sto.deltas.foldl (fun acc p => start acc p.2) 0
+  sto.cache.foldl (fun acc p => start acc p.2) a
+
+def workCap : Nat := 30000
+
+def refused (what : String) (n : Nat) : String :=
+  s!"OBS model-not-evaluated: {what} visits more than {workCap} references on the dumped slabs (counted {n}: a reference cycle or a heavily shared subgraph)"
+
 def stepLine (s : HealthState) (line : String) (lineNo : Nat) : HealthState :=
   let ws := line.splitOn " "
   let s := { s with rep := { s.rep with lines := s.rep.lines + 1 } }
@@ -84,15 +150,21 @@ def stepLine (s : HealthState) (line : String) (lineNo : Nat) : HealthState :=
     { s with pending := [checkObs (Health.check s.heap (expectedOf (fields rest)))] }
   | "HCS" :: rest =>
     let s := { s with rep := { s.rep with ops := s.rep.ops + 1 } }
+    let n := iterCost workCap s.sto
+    if n > workCap then { s with pending := [refused "slab iteration" n] } else
     { s with pending := [checkObs (Health.checkStorage idCodec (fun _ v => v) s.sto (expectedOf (fields rest)))] }
   | "ITER" :: _ =>
     let s := { s with rep := { s.rep with ops := s.rep.ops + 1 } }
+    let n := iterCost workCap s.sto
+    if n > workCap then { s with pending := [refused "slab iteration" n] } else
     match Health.slabIterator idCodec (fun _ v => v) s.sto with
     | .ok ys => { s with pending := ["OBS ok:" ++ idList (ys.map (·.1))] }
     | .error e => { s with pending := ["OBS err:" ++ herr e] }
   | "REFS" :: rest =>
     let root := ((fget (fields rest) "root").bind parseID).getD SlabID.undef
     let s := { s with rep := { s.rep with ops := s.rep.ops + 1 } }
+    let n := refsCost workCap s.heap root
+    if n > workCap then { s with pending := [refused "the all-child-references walk" n] } else
     match Health.allChildReferences s.heap root with
     | .ok (refs, broken) => { s with pending := ["OBS ok:" ++ idList refs ++ "|" ++ idList broken] }
     | .error e => { s with pending := ["OBS err:" ++ herr e] }
